@@ -272,7 +272,7 @@ FULL = Limits(False)
 
 
 def mutated(mi: int, bi: int, site: int, mut: int, rsel: int, tag: str,
-            vsel: int, ksel: int, lim=None):
+            vsel: int, ksel: int, lim=None, built=None):
     """Build base document bi of model mi and apply one mutation.  Returns
     the Built tree or None when the mutation does not apply at that site
     (the caller treats that as 'precondition not met').
@@ -281,7 +281,7 @@ def mutated(mi: int, bi: int, site: int, mut: int, rsel: int, tag: str,
     new tag (0 = the free tag, k = RETAGS[k-1]); vsel the value for SETVAL;
     ksel the key for ADD."""
     spec = MODELS[mi][3][bi]
-    b = docs.build(spec)
+    b = built if built is not None else docs.build(spec)
     if not 0 <= site < len(b.nodes):
         return None
     if mut == MUT_NONE:
@@ -465,3 +465,53 @@ def run_load_with(loader, tree):
     except Exception as e:   # noqa
         return 'raise', e
     return 'ok', v
+
+
+# ---------------------------------------------------------------------------
+# two simultaneous mutations (thorough tier): a first, simple mutation (drop
+# the entry / set a value / retag with a palette tag) at site1, then any
+# mutation of the quick palettes at site2
+
+FIRST_MUTS = 6      # 0 drop, 1..3 set value VALS[0..2], 4 retag str, 5 retag int
+DOUBLE_MODELS = ['plain', 'perm', 'sav', 'loose', 'styled', 'shapes',
+                 'trap_loose', 'order']
+
+
+def double_slices():
+    """slice = index into BASES * 32 + site1 (one slice per first site)."""
+    out = []
+    for k, (mi, bi, n) in enumerate(BASES):
+        if MODELS[mi][0] in DOUBLE_MODELS and bi == 0:
+            out += [k * 32 + s for s in range(1, min(n, 32))]
+    return out
+
+
+def explore2(sl: int, m1: int, site: int, mut: int, rsel: int, tag: str,
+             vsel: int, ksel: int, check, before=None):
+    k, site1 = sl // 32, sl % 32
+    mi, bi, n = BASES[k]
+    if site >= n or site == site1 or mut == MUT_NONE:
+        return None
+    lim = Limits(True)
+    b = docs.build(MODELS[mi][3][bi])
+    n1 = b.nodes[site1]
+    if m1 == 0:
+        if not docs.drop_entry(b, site1):
+            return None
+    elif m1 <= 3:
+        if not isinstance(n1, yaml.ScalarNode):
+            return None
+        n1.value = pick(VALS, m1 - 1)
+    elif m1 == 4:
+        n1.tag = T_STR
+    else:
+        n1.tag = 'tag:yaml.org,2002:int'
+    b2 = mutated(mi, bi, site, mut, rsel, tag, vsel, ksel, lim, built=b)
+    if b2 is None:
+        return None
+    if before is not None:
+        b2.pre = before(mi, b2)
+    outcome, val = run_load(mi, b2.root)
+    note(model=MODELS[mi][0], base=bi, first_site=site1, first_mutation=m1,
+         site=site, mutation=mut)
+    return outcome, check(mi, outcome, val, b2)
